@@ -530,3 +530,13 @@ _add(
     m("put-skips-on-existence-alone", "redun/backends/value_store.py", "        if self.has(value_hash) and self.size(value_hash) == len(data):", "        if self.has(value_hash):", "C31.4"),
     m("no-store-raises-for-placeholder", D, "            # No ValueStore is configured, so the offloaded data is unavailable.\n            return b\"\", False", "            raise AssertionError(\"ValueStore is not defined.\")", "C31.4"),
 )
+_add(
+    "C10",
+    m(
+        "glue-job-popped-before-submit-call",
+        "redun/executors/aws_glue.py",
+        "                    job = self.pending_glue_jobs[0]\n",
+        "                    job = self.pending_glue_jobs.popleft()\n                    self.pending_glue_jobs.appendleft  # noqa\n",
+        "C10.6",
+    ),
+)
